@@ -213,3 +213,96 @@ Print Assumptions C15_rbend_clone_after_history.
 Print Assumptions C15_dipole_clone_after_history.
 Print Assumptions C15_cached_derived_attribute_refuted.
 Print Assumptions C15_history_nonvacuous.
+
+(* ======================================================================================================================
+   Round 5: "identical copy" also means that EQUAL OBJECTS STAY EQUAL UNDER EQUAL OPERATIONS.  The clone after a history
+   equals the original in STATE (theorems above), so any later assignment list applied to both leaves them equal -- in state,
+   in every observation and in tracking, after every step.  A clone that is only OBSERVABLY equal (every public attribute
+   reads the same, the beam is treated the same) need not stay equal: refuted for a class whose constructor argument is read
+   back through a getter that depends on another attribute (Ops/CloneHistoryStay.v; the shape of seeded change C15-6).
+   ====================================================================================================================== *)
+From Cheetah Require Import Ops.CloneHistoryStay Ops.CloneHistoryStayProofs.
+
+(* generic: history [pre], clone, then the same assignments [post] on both *)
+Theorem C15_clone_stays_equal_generic :
+  forall (S A V : Type) (get : A -> S -> V) (set : A -> V -> S -> S) (init : (A -> V) -> S) (copy : V -> V),
+  (forall v, copy v = v) ->
+  (forall k k' : A -> V, (forall a, k a = k' a) -> init k = init k') ->
+  forall inv : S -> Prop,
+  (forall a v s, inv s -> inv (set a v s)) ->
+  (forall s, inv s -> init (fun f => get f s) = s) ->
+  forall (pre post : list (A * V)) (s : S), inv s ->
+  fold_left (fun s op => set (fst op) (snd op) s) post
+    (init (fun f => copy (get f (fold_left (fun s op => set (fst op) (snd op) s) pre s))))
+  = fold_left (fun s op => set (fst op) (snd op) s) post (fold_left (fun s op => set (fst op) (snd op) s) pre s).
+Proof. exact clone_stays_equal_gen. Qed.
+
+(* ... hence equal observations and equal tracking after EVERY prefix of the later assignments *)
+Theorem C15_clone_stays_equal_stepwise :
+  forall (S A V : Type) (get : A -> S -> V) (set : A -> V -> S -> S) (init : (A -> V) -> S) (copy : V -> V),
+  (forall v, copy v = v) ->
+  (forall k k' : A -> V, (forall a, k a = k' a) -> init k = init k') ->
+  forall inv : S -> Prop,
+  (forall a v s, inv s -> inv (set a v s)) ->
+  (forall s, inv s -> init (fun f => get f s) = s) ->
+  forall (B : Type) (track : S -> B -> B) (pub : list A) (pre post : list (A * V)) (k : nat) (s : S), inv s ->
+  map (fun a => get a (run S A V set (firstn k post) (hclone S A V get init copy (run S A V set pre s)))) pub
+  = map (fun a => get a (run S A V set (firstn k post) (run S A V set pre s))) pub
+  /\ forall b, track (run S A V set (firstn k post) (hclone S A V get init copy (run S A V set pre s))) b
+               = track (run S A V set (firstn k post) (run S A V set pre s)) b.
+Proof. exact clone_stays_equal_stepwise. Qed.
+
+(* every class_ok class of the class table *)
+Theorem C15_clone_stays_equal :
+  forall (V : Type) (dflt : cls_rec -> string -> V) (other : cls_rec -> list (string * V) -> string -> V) (copy : V -> V),
+  (forall v, copy v = v) ->
+  forall (pre post : list (string * V)) (e c : element V),
+  class_ok (ecls e) = true -> required_passed (ecls e) = true -> wf e ->
+  clone_elem V dflt other copy (run_elem V pre e) = Some c ->
+  run_elem V post c = run_elem V post (run_elem V pre e).
+Proof. exact clone_stays_equal_elem. Qed.
+
+(* two stored flags (cheetah's Screen: is_blocking, is_active are plain attributes): the clone is the state, whatever came before
+   and whatever comes after *)
+Theorem C15_plain_flags_stay_equal :
+  forall (pre post : list (gattr * bool)) (s : gstate),
+  run gstate gattr bool gset post (hclone gstate gattr bool pget ginit (fun v => v) (run gstate gattr bool gset pre s))
+  = run gstate gattr bool gset post (run gstate gattr bool gset pre s).
+Proof. exact plain_stays_equal. Qed.
+
+(* REFUTED for the gated getter  blocking = property(_blocking and active):  the clone of (blocking, not active) reads equal on
+   every public attribute and treats the beam alike, is a different state, and after the SAME assignment active := True on both
+   the original blocks the beam and the clone does not *)
+Theorem C15_gated_getter_refuted :
+  let s := mkg true false in
+  let c := hclone gstate gattr bool gget ginit (fun v => v) s in
+  map (fun a => gget a c) [Blocking; Active] = map (fun a => gget a s) [Blocking; Active] /\ stops c = stops s
+  /\ c <> s
+  /\ gget Blocking (run gstate gattr bool gset [(Active, true)] s) = true
+  /\ gget Blocking (run gstate gattr bool gset [(Active, true)] c) = false
+  /\ stops (run gstate gattr bool gset [(Active, true)] s) = true
+  /\ stops (run gstate gattr bool gset [(Active, true)] c) = false.
+Proof. exact gated_refuted. Qed.
+
+(* exactly which states of the gated class clone faithfully: all but (blocking, not active) *)
+Theorem C15_gated_getter_stays_equal_iff :
+  forall s : gstate,
+  (forall post, map (fun a => gget a (run gstate gattr bool gset post (hclone gstate gattr bool gget ginit (fun v => v) s))) [Blocking; Active]
+                = map (fun a => gget a (run gstate gattr bool gset post s)) [Blocking; Active])
+  <-> (g_blocking s = false \/ g_active s = true).
+Proof. exact gated_stays_equal_iff. Qed.
+
+(* non-vacuity: the plain class on the witness history keeps blocking *)
+Example C15_stays_equal_nonvacuous :
+  let s := mkg true false in
+  pget Blocking (run gstate gattr bool gset [(Active, true)] (hclone gstate gattr bool pget ginit (fun v => v) s)) = true
+  /\ stops (run gstate gattr bool gset [(Active, true)] (hclone gstate gattr bool pget ginit (fun v => v) s)) = true.
+Proof. exact plain_witness. Qed.
+
+Print Assumptions C15_clone_stays_equal_generic.
+Print Assumptions C15_clone_stays_equal_stepwise.
+Print Assumptions C15_clone_stays_equal.
+Print Assumptions C15_plain_flags_stay_equal.
+Print Assumptions C15_gated_getter_refuted.
+Print Assumptions C15_gated_getter_stays_equal_iff.
+Print Assumptions C15_stays_equal_nonvacuous.
